@@ -108,3 +108,137 @@ Theorem C19_chain_id_slash_refuted :
   exists c, (cid_version c < 2 ^ 32)%N /\ chain_id_read (chain_id_bytes c) <> Some c.
 Proof. exact chain_id_slash_refuted. Qed.
 Print Assumptions C19_chain_id_slash_refuted.
+
+(** * Merkle roots (transaction root, receipts root) *)
+From Verif Require Import Codec.Merkle Codec.MerkleProofs Codec.Receipt Codec.ReceiptProofs
+  Codec.Hardfork Codec.HardforkProofs.
+
+(** Two entry lists of the same length with the same root are equal, or the hash collides
+    (entries and hash outputs of one fixed length, 32 in the code). *)
+Theorem C19_merkle_binding_same_length :
+  forall (H : bytes -> bytes) (hlen : nat), (forall x, List.length (H x) = hlen) ->
+  forall l1 l2, all_len hlen l1 -> all_len hlen l2 -> List.length l1 = List.length l2 ->
+  merkle_root H l1 = merkle_root H l2 -> l1 = l2 \/ collision H.
+Proof. exact merkle_binding_same_length. Qed.
+Print Assumptions C19_merkle_binding_same_length.
+
+(** F5 (known finding): the number of entries is not bound, for every hash function. *)
+Theorem C19_merkle_length_not_bound_refuted : forall (H : bytes -> bytes),
+  exists l1 l2, l1 <> l2 /\ Forall (fun x => List.length x = 32%nat) l1 /\ Forall (fun x => List.length x = 32%nat) l2 /\
+                merkle_root H l1 = merkle_root H l2.
+Proof. exact merkle_length_not_bound_refuted. Qed.
+Print Assumptions C19_merkle_length_not_bound_refuted.
+
+Theorem C19_merkle_odd_extension : forall (H : bytes -> bytes) l x,
+  Nat.even (List.length l) = true -> l <> [] ->
+  merkle_root H (l ++ [x]) = merkle_root H (l ++ [x; x]).
+Proof. exact merkle_odd_extension. Qed.
+Print Assumptions C19_merkle_odd_extension.
+
+(** * Receipts *)
+
+Theorem C19_fieldlists_receipt :
+  gen_marshalBody = receipt_v1_fields /\ gen_marshalBodyV2 = receipt_v2_fields /\
+  gen_unmarshalBody = List.filter (fun f => negb (String.eqb f "Events")) receipt_v1_fields /\
+  gen_unmarshalBodyV2 = List.filter (fun f => negb (String.eqb f "Events")) receipt_v2_fields /\
+  (* every field of the message is in the V2 format or is one of the declared memory-only fields *)
+  List.forallb (fun f => List.existsb (String.eqb f) (receipt_v2_fields ++ receipt_memory_fields)) gen_struct_Receipt = true /\
+  List.length gen_struct_Receipt = List.length (receipt_v2_fields ++ receipt_memory_fields) /\
+  gen_marshalCommonBinary = event_merkle_fields /\ gen_eventMarshalStoreBinary = event_store_fields /\
+  gen_eventUnmarshalStoreBinary = event_store_fields /\
+  List.forallb (fun f => List.existsb (String.eqb f) (event_merkle_fields ++ event_memory_fields)) gen_struct_Event = true /\
+  List.length gen_struct_Event = List.length (event_merkle_fields ++ event_memory_fields).
+Proof. vm_compute. repeat split; reflexivity. Qed.
+Print Assumptions C19_fieldlists_receipt.
+
+Theorem C19_receipt_store_roundtrip_v2 : forall r, receipt_wf r ->
+  exists b, marshal_store true r = Some b /\
+            forall rest, unmarshal_store true (b ++ rest) = Some (receipt_view true false r, rest).
+Proof. exact receipt_store_roundtrip_v2. Qed.
+Print Assumptions C19_receipt_store_roundtrip_v2.
+
+Theorem C19_receipt_store_roundtrip_v1 : forall r, receipt_wf r ->
+  exists b, marshal_store false r = Some b /\
+            forall rest, unmarshal_store false (b ++ rest) = Some (receipt_view false false r, rest).
+Proof. exact receipt_store_roundtrip_v1. Qed.
+Print Assumptions C19_receipt_store_roundtrip_v1.
+
+Theorem C19_receipt_store_roundtrip_v2_exact : forall r b,
+  receipt_wf r -> Forall event_no_memory (r_events r) -> marshal_store true r = Some b ->
+  unmarshal_store true b = Some (r, []).
+Proof. exact receipt_store_roundtrip_v2_exact. Qed.
+Print Assumptions C19_receipt_store_roundtrip_v2_exact.
+
+Theorem C19_receipt_store_roundtrip_v1_exact : forall r b,
+  receipt_wf r -> Forall event_no_memory (r_events r) -> r_gas r = 0%N -> r_feedeleg r = false ->
+  marshal_store false r = Some b -> unmarshal_store false b = Some (r, []).
+Proof. exact receipt_store_roundtrip_v1_exact. Qed.
+Print Assumptions C19_receipt_store_roundtrip_v1_exact.
+
+(** F17 (known finding). *)
+Theorem C19_receipt_v1_drops_feedelegation_refuted :
+  exists r b, receipt_wf r /\ Forall event_no_memory (r_events r) /\ marshal_store false r = Some b /\
+              unmarshal_store false b <> Some (r, []).
+Proof. exact receipt_v1_drops_feedelegation_refuted. Qed.
+Print Assumptions C19_receipt_v1_drops_feedelegation_refuted.
+
+Theorem C19_receipt_merkle_v1_misses_feedelegation_refuted :
+  exists r1 r2, receipt_wf_merkle r1 /\ receipt_wf_merkle r2 /\ r1 <> r2 /\
+                marshal_merkle false r1 = marshal_merkle false r2 /\
+                marshal_merkle true r1 <> marshal_merkle true r2.
+Proof. exact receipt_merkle_v1_misses_feedelegation_refuted. Qed.
+Print Assumptions C19_receipt_merkle_v1_misses_feedelegation_refuted.
+
+(** Latent (CumulativeFeeUsed is never set by the node). *)
+Theorem C19_receipt_store_cumfee_refuted :
+  exists r b, blen (r_addr r) = 33%N /\ blen (r_txhash r) = 32%N /\ r_events r = [] /\
+              marshal_store true r = Some b /\
+              forall r' rest', unmarshal_store true (b ++ [222; 173; 190]%N) = Some (r', rest') -> rest' <> [222; 173; 190]%N.
+Proof. exact receipt_store_cumfee_refuted. Qed.
+Print Assumptions C19_receipt_store_cumfee_refuted.
+
+(** The merkle leaf input of a format version determines every field that version commits to. *)
+Theorem C19_receipt_merkle_covers : forall v2 r1 r2 b1 b2,
+  receipt_wf_merkle r1 -> receipt_wf_merkle r2 ->
+  marshal_merkle v2 r1 = Some b1 -> marshal_merkle v2 r2 = Some b2 ->
+  receipt_view v2 true r1 <> receipt_view v2 true r2 -> b1 <> b2.
+Proof. exact receipt_merkle_covers. Qed.
+Print Assumptions C19_receipt_merkle_covers.
+
+Theorem C19_receipts_roundtrip : forall v2 bloom rs b,
+  Forall receipt_wf rs -> bloom_wf bloom -> (N.of_nat (List.length rs) < 2 ^ 32)%N ->
+  marshal_receipts v2 bloom rs = Some b ->
+  unmarshal_receipts v2 b = Some (bloom, List.map (receipt_view v2 false) rs).
+Proof. exact receipts_roundtrip. Qed.
+Print Assumptions C19_receipts_roundtrip.
+
+Theorem C19_receipts_root_binding :
+  forall (H : bytes -> bytes) (hlen : nat), (forall x, List.length (H x) = hlen) ->
+  forall v2 rs1 rs2,
+  Forall receipt_wf_merkle rs1 -> Forall receipt_wf_merkle rs2 -> List.length rs1 = List.length rs2 ->
+  receipts_root H v2 None rs1 = receipts_root H v2 None rs2 ->
+  List.map (receipt_view v2 true) rs1 = List.map (receipt_view v2 true) rs2 \/ collision H.
+Proof. exact receipts_root_binding. Qed.
+Print Assumptions C19_receipts_root_binding.
+
+(** * Hardfork versions *)
+
+Theorem C19_fieldlists_hardfork : gen_struct_HardforkConfig = ["V2"; "V3"; "V4"; "V5"].
+Proof. vm_compute. reflexivity. Qed.
+Print Assumptions C19_fieldlists_hardfork.
+
+Theorem C19_version_monotone : forall c h1 h2, (h1 <= h2)%N -> (version c h1 <= version c h2)%N.
+Proof. exact version_monotone. Qed.
+Print Assumptions C19_version_monotone.
+
+Theorem C19_compat_implies_same_versions : forall c db h,
+  check_compatibility c db h = true ->
+  forall h', (h' <= h)%N -> version c h' = version (db_heights (List.length c) db) h'.
+Proof. exact compat_implies_same_versions. Qed.
+Print Assumptions C19_compat_implies_same_versions.
+
+Theorem C19_version_fork_consistent : forall c h k,
+  validate c = true -> (k < List.length c)%nat ->
+  ((N.of_nat k + 2 <= version c h)%N <-> is_vfork c k h = true).
+Proof. exact version_fork_consistent. Qed.
+Print Assumptions C19_version_fork_consistent.
